@@ -214,13 +214,40 @@ macro_rules! generate_method_for_document_type {
 
       // Insert the generated `KeyId` into storage under the computed method digest and handle the error if the
       // operation fails.
-      if let Err(error) = <I as KeyIdStorage>::insert_key_id(&storage.key_id_storage(), method_digest, key_id.clone())
-        .await
-        .map_err(Error::KeyIdStorageError)
+      if let Err(error) =
+        <I as KeyIdStorage>::insert_key_id(&storage.key_id_storage(), method_digest.clone(), key_id.clone())
+          .await
+          .map_err(Error::KeyIdStorageError)
       {
         // Remove the method from the document as it can no longer be used.
         *document = document_before_insertion;
-        return Err(try_undo_key_generation(storage, &key_id, error).await);
+        // A key id storage may report a failure after it has recorded the entry (e.g. when persisting it is what
+        // failed). The key is about to be deleted: do not silently leave an entry behind that points to it.
+        let stray_key_id: Option<crate::key_id_storage::KeyIdStorageError> =
+          match <I as KeyIdStorage>::get_key_id(&storage.key_id_storage(), &method_digest).await {
+            Ok(recorded) if recorded == key_id => {
+              <I as KeyIdStorage>::delete_key_id(&storage.key_id_storage(), &method_digest)
+                .await
+                .err()
+            }
+            // An entry of another key (what made the insertion fail), or no entry.
+            Ok(_) => None,
+            Err(err) if matches!(err.kind(), crate::key_id_storage::KeyIdStorageErrorKind::KeyIdNotFound) => None,
+            // Cannot tell.
+            Err(err) => Some(err),
+          };
+        let error: Error = try_undo_key_generation(storage, &key_id, error).await;
+        return Err(match stray_key_id {
+          None => error,
+          Some(undo_error) => Error::UndoOperationFailed {
+            message: format!(
+              "unable to ensure that no stray key id is stored under packed method digest: {:?}",
+              &method_digest.pack()
+            ),
+            source: Box::new(error),
+            undo_error: Some(Box::new(Error::KeyIdStorageError(undo_error))),
+          },
+        });
       }
 
       Ok(fragment)
